@@ -549,6 +549,7 @@ func main() {
 	jobs = append(jobs, famB(L, rep.Thorough())...) // the heavy per-decoder jobs first
 	jobs = append(jobs, famCommands(M)...)
 	jobs = append(jobs, famCommandsWide(MW)...)
+	jobs = append(jobs, famCommandSpellings()...)
 	jobs = append(jobs, famJSON(N)...)
 	jobs = append(jobs, famA(L)...)
 	jobs = append(jobs, famInflated(4)...)
@@ -688,7 +689,7 @@ func replay() {
 		engine.HarnessError("bad case: %v", err)
 	}
 	if c.Kind == "command" {
-		for _, g := range graphs() {
+		for _, g := range append(graphs(), spellingGraph()) {
 			if g.name == c.Graph {
 				line := c.Line
 				if c.LineHex != "" {
